@@ -76,7 +76,12 @@ TPayload == /\ IsEvent("pay")
                \/ AfterFailure \/ AfterClosed
             /\ Matches(Ev.react)
 
-TNext == TOpen \/ TLocalClose \/ THeader \/ TPayload
+\* "failed ... as soon as the header of the offending frame has been read, before its payload is buffered": once the endpoint has
+\* failed the connection, none of the payload octets that keep arriving for that frame are kept (Ev.octets = what the endpoint
+\* holds of the current frame at the end of the run)
+TRetained == /\ IsEvent("retained") /\ (failed => Ev.octets = 0)
+             /\ UNCHANGED <<ctx, cs, failed, inside, kind, u8, msgLen, cmp, cur, re>>
+TNext == TOpen \/ TLocalClose \/ THeader \/ TPayload \/ TRetained
 TraceSpec == TInit /\ [][TNext]_tvars
 
 Progress == TLCSet(tid, IF TLCGet(tid) < l THEN l ELSE TLCGet(tid))
